@@ -177,6 +177,20 @@ def run_real_c13(case):
             r = cli.gwf(proj.root, ["logs", "--no-pager", "bad"], env, audit=False)
             if "partial" not in r.out:
                 res.violation("log-incomplete", "gwf logs bad does not show the output of the failed job: %r" % r.out[:200])
+            # a job may print anything, also bytes that are not UTF-8: it completed, and its logs hold exactly those bytes
+            tb = pool.raw_enqueue("binout", "printf '\\377\\376caf\\351\\n'\nprintf '\\200\\201\\n' >&2\n", proj.root, time_limit=None, deps=[])
+            pool.wait_states(lambda st: st.get(tb) in ("COMPLETED", "FAILED", "KILLED"), timeout=20)
+            res.mon("logs_checked")
+            if pool.states().get(tb) != "COMPLETED":
+                res.violation("real-wrong-state", "a task that printed non-UTF-8 bytes and exited 0 is %s" % pool.states().get(tb))
+            else:
+                for ext, want_b in ((".stdout", b"\xff\xfecaf\xe9\n"), (".stderr", b"\x80\x81\n")):
+                    try:
+                        got_b = open(os.path.join(proj.root, ".gwf", "logs", "binout" + ext), "rb").read()
+                    except FileNotFoundError:
+                        got_b = None
+                    if got_b != want_b:
+                        res.violation("log-incomplete", "binout%s holds %r, the job wrote %r" % (ext, got_b, want_b))
             # cancel the slow task: it and its children must be gone
             if not marker_pids(marker):
                 raise Inconclusive("marker processes not found before cancel")
